@@ -18,6 +18,12 @@
 //	      IN gets one line per (set, pattern): "<hex pattern> <hex name> ..." (the set in index order);
 //	      OUT gets one line per run: "<case> <gomaxprocs> <rep> <len(result)> <oracle count> <M|N per name>"
 //	      where the oracle count is known from how the names are built, not from any matcher
+//	c17 long IN OUT
+//	      long patterns and names (lengths 255 256 1023 1024 4095 4096 4097 8192 65536): one long segment, many short
+//	      segments, a long literal pattern equal to the name, * + long suffix, a long run of ?, a class repeated 5000
+//	      times, a long malformed pattern. IN gets "<hex pattern> <hex name>" per line, OUT gets
+//	      "<match char><filter char> <shape> <size> <expected char> <go oracle char>": the expected result is known by
+//	      construction, the last char is the independent Go reading of the grammar (oracle.go)
 //	c17 rand N IN OUT
 //	      N generated pairs (VERIF_SEED): IN gets "<hex pattern> <hex name>" per line,
 //	      OUT gets "<match char><filter char> <klass> <patternValidUTF8 0|1>" per line
@@ -391,6 +397,65 @@ func bigSet(n int) ([]string, intoto.Set) {
 
 var bigProcs = []int{1, 2, 3, 4, 7, 0} // 0 = the default of the machine
 
+// ---------------------------------------------------------------- long inputs
+type longCase struct {
+	shape         string
+	size          int
+	pattern, name string
+	want          byte // by construction
+}
+
+var longSizes = []int{255, 256, 1023, 1024, 4095, 4096, 4097, 8192, 65536}
+
+func segs(n int) string { // many short segments "ab/ab/..." of total length n
+	b := make([]byte, n)
+	for i := range b {
+		b[i] = "ab/"[i%3]
+	}
+	return string(b)
+}
+
+func longCases() []longCase {
+	var out []longCase
+	add := func(shape string, size int, p, n string, want byte) {
+		out = append(out, longCase{shape, size, p, n, want})
+	}
+	for _, L := range longSizes {
+		one := strings.Repeat("a", L)
+		many := segs(L)
+		// long name, short pattern
+		add("one-long-segment", L, "*", one, 'M')
+		add("one-long-segment", L, "?*a", one, 'M')
+		add("one-long-segment", L, "a*b", one, 'N')
+		add("many-short-segments", L, "*", many, 'M')
+		add("many-short-segments", L, "ab/*/ab*", many+"ab", 'M')
+		add("many-short-segments", L, "*[^ab/]*", many, 'N')
+		// long literal pattern equal to the name / differing in the last byte / one byte short
+		add("long-literal-equal", L, many, many, 'M')
+		add("long-literal-equal", L, many, many[:L-1]+"x", 'N')
+		add("long-literal-equal", L, many, many[:L-1], 'N')
+		// * + long suffix (pattern of length L)
+		add("star-long-suffix", L, "*"+many[1:], "xyz/"+many[1:], 'M')
+		add("star-long-suffix", L, "*"+many[1:], many[1:L-1], 'N')
+		// long run of ?
+		add("long-run-of-any", L, strings.Repeat("?", L), many, 'M')
+		add("long-run-of-any", L, strings.Repeat("?", L), many[:L-1], 'N')
+		add("long-run-of-any", L, strings.Repeat("?", L-1)+"*", many+"/tail", 'M')
+		// long malformed pattern: the error is in the last byte
+		add("long-malformed", L, one[:L-1]+"[", one, 'B')
+		add("long-malformed", L, "*"+one[:L-2]+"\\", "b", 'B')
+	}
+	// a class repeated 5000 times (25000 bytes of pattern)
+	cls := strings.Repeat("[a-c]", 5000)
+	nm := strings.Repeat("abc", 1667)[:5000]
+	add("class-x5000", 25000, cls, nm, 'M')
+	add("class-x5000", 25000, cls, nm[:4999], 'N')
+	add("class-x5000", 25000, cls, nm[:4999]+"d", 'N')
+	add("class-x5000", 25001, "*"+cls, "zz/"+nm, 'M')
+	add("class-x5000", 25000, cls[:len(cls)-1], nm, 'B')
+	return out
+}
+
 func main() {
 	if len(os.Args) < 2 {
 		fmt.Fprintln(os.Stderr, "usage: c17 enum|filter|rand|replay ...")
@@ -540,6 +605,31 @@ func main() {
 				}
 			}
 			runtime.GOMAXPROCS(def)
+		}
+		win.Flush()
+		wout.Flush()
+		fin.Close()
+		fout.Close()
+	case "long":
+		silenceStdout()
+		fin, err := os.Create(a[0])
+		if err != nil {
+			panic(err)
+		}
+		fout, err := os.Create(a[1])
+		if err != nil {
+			panic(err)
+		}
+		win, wout := bufio.NewWriterSize(fin, 1<<20), bufio.NewWriterSize(fout, 1<<20)
+		for _, c := range longCases() {
+			fmt.Fprintf(win, "%s %s\n", tohex(c.pattern), tohex(c.name))
+			o := byte('N')
+			if m, bad := oMatch(c.pattern, c.name); bad {
+				o = 'B'
+			} else if m {
+				o = 'M'
+			}
+			fmt.Fprintf(wout, "%c%c %s %d %c %c\n", matchChar(c.pattern, c.name), filterChar(c.pattern, c.name), c.shape, c.size, c.want, o)
 		}
 		win.Flush()
 		wout.Flush()
